@@ -14,7 +14,7 @@ MANIFEST = dict(
          "statement-language programs of subscriberImpl/subscriptionImpl, decided equal to the programs regenerated from the Go sources on every run): "
          "in safe and eventually-safe mode at most one thread is between callback-begin and callback-end (kernel_callbacks_never_overlap; lock invariant "
          "holds-mu <-> owner, inside -> holds mu); in any mode under the single-producer hypothesis (kernel_callbacks_never_overlap_single_producer); "
-         "witness that the unsafe mode overlaps with two producers. Tie: program equality (F) + one-thread logs compared exactly + stress with an "
+         "witness that the unsafe mode overlaps with two producers; generic route: a decidable lock-discipline checker wellLocked, proved sound for arbitrary program tables (wellLocked_programs_never_overlap) and decided true on the regenerated table. Tie: program equality (F) + one-thread logs compared exactly + stress with an "
          "inside-counter on a raw observer (K). Parts (b) operator catalogue and (c) subjects are separate slices.",
     technique="Lean 4 proof (invariant over an interpreter of extracted programs, induction on the schedule; control-flow facts decided over the finite set of reachable control states) "
               "+ regenerated program table + differential/stress harness",
